@@ -310,8 +310,9 @@ func c15Body(r *Run, rep *core.Report, twin int, gev sym.Event, done, cut []sym.
 				if tick == nil && len(e.Args) > 0 {
 					tick = e.Args[0]
 				}
-			case "recv", "send", "opqcall", "icall", "callback", "usercall", "mapop", "close", "go", "selectdefault", "settingstore", "itemsstore", "extcall", "tickerreset":
-				// (calls of diagnostic hooks the library keeps - dyncall, diag - are not the janitor's business)
+			case "recv", "send", "opqcall", "icall", "callback", "usercall", "mapop", "close", "go", "selectdefault", "settingstore", "itemsstore":
+				// (calls of diagnostic hooks the library keeps and of functions outside the module - dyncall, diag, extcall -
+				// are not the janitor's business: they remove nothing from the map and start nothing)
 				evs = append(evs, e)
 			}
 		}
